@@ -1460,7 +1460,7 @@ fn run_fil(id: u64, g: &FilCase, api: &Discv5, inb: bool, rt: &tokio::runtime::R
                         Some(t) => ns(*t) > hi,
                     };
                     if keep && !after.ban_ips.contains_key(ip) {
-                        fl.add(&["C18"], "ban was lifted before its expiry", format!("ip {:?} until {:?}, check not after {}", ip, t.map(ns), hi), i);
+                        fl.add(&["C18", "C11"], "ban was lifted before its expiry", format!("ip {:?} until {:?}, check not after {}", ip, t.map(ns), hi), i);
                     }
                 }
                 for (n, t) in &before.ban_nodes {
@@ -1469,7 +1469,7 @@ fn run_fil(id: u64, g: &FilCase, api: &Discv5, inb: bool, rt: &tokio::runtime::R
                         Some(t) => ns(*t) > hi,
                     };
                     if keep && !after.ban_nodes.contains_key(n) {
-                        fl.add(&["C18"], "ban was lifted before its expiry", format!("node {} until {:?}", node_num(n), t.map(ns)), i);
+                        fl.add(&["C18", "C11"], "ban was lifted before its expiry", format!("node {} until {:?}", node_num(n), t.map(ns)), i);
                     }
                 }
                 let lifted = before.ban_ips.len() + before.ban_nodes.len() - after.ban_ips.len() - after.ban_nodes.len();
